@@ -376,6 +376,38 @@ func init() {
 		g.def("verifyOptionKeys", "List String", leanList(verifyKeys))
 		g.def("verifyNameIsCacheKey", "Bool", strconv.FormatBool(verifyNameIsKey))
 
+		// (c') the served tls.Certificate: which fields the literal sets, and whether anything reachable
+		// writes one of the fields by which crypto/tls restricts the clients a certificate may serve
+		// (model: `usable` — an unrestricted RSA leaf serves every client that offers an RSA scheme).
+		var servedKeys []string
+		restrictWrites := 0
+		for _, fd := range reach {
+			ast.Inspect(fd.Body, func(n ast.Node) bool {
+				switch x := n.(type) {
+				case *ast.CompositeLit:
+					if src(x.Type) == "tls.Certificate" {
+						for _, el := range x.Elts {
+							if kv, ok := el.(*ast.KeyValueExpr); ok {
+								servedKeys = append(servedKeys, src(kv.Key))
+							} else {
+								servedKeys = append(servedKeys, "<positional>")
+							}
+						}
+					}
+				case *ast.AssignStmt:
+					for _, l := range x.Lhs {
+						if se, ok := l.(*ast.SelectorExpr); ok && (se.Sel.Name == "SupportedSignatureAlgorithms") {
+							restrictWrites++
+						}
+					}
+				}
+				return true
+			})
+		}
+		sort.Strings(servedKeys)
+		g.def("servedCertKeys", "List String", leanList(servedKeys))
+		g.def("servedCertRestrictWrites", "Nat", strconv.Itoa(restrictWrites))
+
 		// (d) a cache hit is handed out only from inside the success branch of its Verify: every `return <hit>, …`
 		// (hit = the variable read from the map, before it is reassigned to the fresh leaf) has an enclosing
 		// `if _, err := ….Verify(…); err == nil { … }` whose body contains it.
